@@ -65,16 +65,23 @@ type Scenario struct {
 	// taken of an object with a history (moved end offsets, pushes, spare
 	// capacity left by appends, a negative SRID, ...).
 	Pre []Mut `json:"pre,omitempty"`
+	// Storm > 0 (race phase, kinds Coord and Bounds): before anything else,
+	// Storm goroutines clone the original StormN times each at the same time
+	// (Clone only reads it), keep their clones, write a value of their own into
+	// every one of them and then look at all of them again: clones handed out
+	// to different callers must not share storage either.
+	Storm  int `json:"storm,omitempty"`
+	StormN int `json:"storm_n,omitempty"`
 	// Quiet: nothing is observed between setting the owners up and the end of
 	// the programs (observing an object may itself change hidden state).
 	Quiet bool `json:"quiet,omitempty"`
 	// OldWrite (variant 0 only): right after cloning the original's owner
 	// writes ordinate I := V through the slice FlatCoords() returned BEFORE
 	// the clone was made.
-	OldWrite *Mut `json:"old_write,omitempty"`
-	BHow  int         `json:"bhow,omitempty"`
-	BL0   int         `json:"bl0,omitempty"`
-	BArgs mgeom.Coord `json:"bargs,omitempty"`
+	OldWrite *Mut        `json:"old_write,omitempty"`
+	BHow     int         `json:"bhow,omitempty"`
+	BL0      int         `json:"bl0,omitempty"`
+	BArgs    mgeom.Coord `json:"bargs,omitempty"`
 }
 
 type prop struct{}
@@ -92,8 +99,8 @@ func (prop) Plan(tier string) []core.Phase {
 
 func (prop) Describe() core.Description {
 	return core.Description{
-		Level: "exploration",
-		Rule: "A scenario is an object of a cloneable type (Point, LineString, LinearRing, Polygon, MultiPoint, MultiLineString, MultiPolygon in XY/XYZ/XYM/XYZM/Layout(5), built through New*Flat, SetCoords or Push so that nil and empty slices both occur, optionally with Reserve()d spare capacity; Coord; Bounds), a choice of who the two owners are (original and clone, clone and clone-of-clone, two sibling clones, clones of two unrelated objects made one after the other), two mutation programs (write an ordinate through FlatCoords(), move or rewrite an end offset through Ends()/Endss(), Push, Reverse, TransformInPlace, SetCoords, SetSRID, Swap with a private third object; Coord.Set and index writes; Bounds.Set/SetCoords/Extend) and a seeded interleaving of the two owners. In 30% of the geometry runs the object has a history before it is cloned (1-6 mutations of the same kinds: moved end offsets, pushes that leave spare capacity, a negative SRID); in 25% nothing is observed between setting the owners up and the end of both programs; in 20% of the original-and-clone runs the original's owner writes through the slice FlatCoords() had returned before the clone was made. Phase 'seq' executes the interleaving sequentially and checks both objects against their private models after every step; phase 'race' also releases the two programs as unsynchronised goroutines in the -race binary. A run is non-trivial when both owners executed at least one in-place mutation.",
+		Level:        "exploration",
+		Rule:         "A scenario is an object of a cloneable type (Point, LineString, LinearRing, Polygon, MultiPoint, MultiLineString, MultiPolygon in XY/XYZ/XYM/XYZM/Layout(5), built through New*Flat, SetCoords or Push so that nil and empty slices both occur, optionally with Reserve()d spare capacity; Coord; Bounds), a choice of who the two owners are (original and clone, clone and clone-of-clone, two sibling clones, clones of two unrelated objects made one after the other), two mutation programs (write an ordinate through FlatCoords(), move or rewrite an end offset through Ends()/Endss(), Push, Reverse, TransformInPlace, SetCoords, SetSRID, Swap with a private third object; Coord.Set and index writes; Bounds.Set/SetCoords/Extend) and a seeded interleaving of the two owners. In 30% of the geometry runs the object has a history before it is cloned (1-6 mutations of the same kinds: moved end offsets, pushes that leave spare capacity, a negative SRID); in 25% nothing is observed between setting the owners up and the end of both programs; in 20% of the original-and-clone runs the original's owner writes through the slice FlatCoords() had returned before the clone was made. Phase 'seq' executes the interleaving sequentially and checks both objects against their private models after every step; phase 'race' also releases the two programs as unsynchronised goroutines in the -race binary. A run is non-trivial when both owners executed at least one in-place mutation.",
 		StateMeasure: "distinct (kind, layout, emptiness pattern, mutation-kind sequence of both owners, interleaving) tuples",
 		Assumptions: []string{
 			"observation is raw: type, layout, stride, SRID, FlatCoords bits, Ends, Endss (a nil and an empty slice are the same value)",
@@ -102,7 +109,7 @@ func (prop) Describe() core.Description {
 		RealComponents: []string{"go-geom root package: Clone of all cloneable types (derived.gen.go), FlatCoords/Ends/Endss, Push, Reverse, TransformInPlace, SetCoords, SetSRID, Swap, Coord.Set, Bounds.Set/SetCoords/Extend", "Go race detector"},
 		StubComponents: []string{"the two owners (seeded mutation programs and their interleaving)"},
 		FaultKinds:     []string{"mut:ord", "mut:end", "mut:sameend", "mut:push", "mut:reverse", "mut:transform", "mut:setcoords", "mut:setsrid", "mut:swap", "mut:cidx", "mut:cset", "mut:bset", "mut:bsetcoords", "mut:bextend"},
-		Probes:         []string{"probe:multipolygon-endss-write", "probe:empty-object", "probe:both-owners-mutated-in-place", "probe:owner1-first", "probe:alternating", "probe:reserved-capacity", "probe:variant-0", "probe:variant-1", "probe:variant-2", "probe:variant-3", "probe:bounds-dims!=layout-stride-or-promoted", "probe:cloned-after-a-history", "probe:nothing-observed-until-the-end", "probe:write-through-slice-from-before-clone", "probe:negative-srid", "probe:one-part-object-pushed-by-both-owners"},
+		Probes:         []string{"probe:multipolygon-endss-write", "probe:empty-object", "probe:both-owners-mutated-in-place", "probe:clone-storm", "probe:owner1-first", "probe:alternating", "probe:reserved-capacity", "probe:variant-0", "probe:variant-1", "probe:variant-2", "probe:variant-3", "probe:bounds-dims!=layout-stride-or-promoted", "probe:cloned-after-a-history", "probe:nothing-observed-until-the-end", "probe:write-through-slice-from-before-clone", "probe:negative-srid", "probe:one-part-object-pushed-by-both-owners"},
 	}
 }
 
@@ -150,6 +157,9 @@ func (prop) Decode(raw []byte) (any, error) {
 		}
 	default:
 		return nil, fmt.Errorf("bad kind %q", s.Kind)
+	}
+	if s.Storm < 0 || s.Storm > 8 || s.StormN < 0 || s.StormN > 400 || (s.Storm > 0 && isGeomKind(s.Kind)) {
+		return nil, fmt.Errorf("bad clone storm")
 	}
 	for _, o := range s.Order {
 		if o != 0 && o != 1 {
@@ -397,6 +407,11 @@ func (prop) Generate(r *prng.Rand, phase string) any {
 		for i := 0; i < total; i++ {
 			s.Order = append(s.Order, r.Intn(2))
 		}
+	}
+	if phase == "race" && (s.Kind == "Coord" || s.Kind == "Bounds") && r.Chance(0.5) {
+		// several callers clone the same original at the same time, many times
+		s.Storm = r.Range(2, 6)
+		s.StormN = []int{1, 8, 70, 150, 300}[r.Intn(5)]
 	}
 	return s
 }
@@ -1152,6 +1167,42 @@ func raceGeom(s *Scenario, g, c geom.T, r0, r1 *raw, log *core.Log) core.Result 
 
 // ---- Coord -----------------------------------------------------------------------------
 
+// cloneStorm: n goroutines make k clones each of one original at the same
+// time (Clone only reads the original) and write a value of their own into
+// every clone; afterwards every clone is read again. It returns a description
+// of the first clone that no longer holds what its owner wrote. mk makes one
+// clone and returns how to write a value into all of its ordinates and how to
+// read them.
+func cloneStorm(n, k int, mk func() (write func(v float64), read func() []float64)) string {
+	var wg sync.WaitGroup
+	start := make(chan struct{})
+	kept := make([][]func() []float64, n)
+	for w := 0; w < n; w++ {
+		wg.Add(1)
+		go func(w int) {
+			defer wg.Done()
+			<-start
+			for j := 0; j < k; j++ {
+				write, read := mk()
+				write(float64(1000*(w+1) + j))
+				kept[w] = append(kept[w], read)
+			}
+		}(w)
+	}
+	close(start)
+	wg.Wait()
+	for w := range kept {
+		for j, read := range kept[w] {
+			for i, v := range read() {
+				if v != float64(1000*(w+1)+j) {
+					return fmt.Sprintf("clone %d of caller %d holds %v at position %d after the caller wrote %d there: another caller's clone lives in the same storage", j, w, v, i, 1000*(w+1)+j)
+				}
+			}
+		}
+	}
+	return ""
+}
+
 func execCoord(s *Scenario, phase string, log *core.Log) core.Result {
 	var res core.Result
 	o := make(geom.Coord, len(s.C))
@@ -1184,6 +1235,22 @@ func execCoord(s *Scenario, phase string, log *core.Log) core.Result {
 	if (c == nil) != (o == nil) {
 		res.Fail("clone-differs", "clone-differs:Coord:nil-vs-empty", "Coord clone: the original is nil: %v, the clone is nil: %v", o == nil, c == nil)
 		return res
+	}
+	if phase == "race" && s.Storm > 0 && len(o) > 0 {
+		if d := cloneStorm(s.Storm, s.StormN, func() (func(float64), func() []float64) {
+			c := o.Clone()
+			return func(v float64) {
+					for i := range c {
+						c[i] = v
+					}
+				}, func() []float64 {
+					return c
+				}
+		}); d != "" {
+			res.Fail("mutation-visible-through-other", "clones-share-storage:Coord", "%s", d)
+			return res
+		}
+		res.Count("probe:clone-storm", 1)
 	}
 	objs := [2]geom.Coord{o, c}
 	models := [2][]float64{append([]float64(nil), o...), append([]float64(nil), o...)}
@@ -1363,6 +1430,28 @@ func execBounds(s *Scenario, phase string, log *core.Log) core.Result {
 	if d := observeBounds(c).diff(observeBounds(o)); d != "" {
 		res.Fail("clone-differs", "clone-differs:Bounds", "Bounds clone differs: %s", d)
 		return res
+	}
+	if phase == "race" && s.Storm > 0 && plain && st > 0 {
+		if d := cloneStorm(s.Storm, s.StormN, func() (func(float64), func() []float64) {
+			b := o.Clone()
+			return func(v float64) {
+					args := make([]float64, 2*st)
+					for i := range args {
+						args[i] = v
+					}
+					b.Set(args...) // writes into the box's own arrays
+				}, func() []float64 {
+					var out []float64
+					for i := 0; i < st; i++ {
+						out = append(out, b.Min(i), b.Max(i))
+					}
+					return out
+				}
+		}); d != "" {
+			res.Fail("mutation-visible-through-other", "clones-share-storage:Bounds", "%s", d)
+			return res
+		}
+		res.Count("probe:clone-storm", 1)
 	}
 	objs := [2]*geom.Bounds{o, c}
 	models := [2]*bmodel{observeBounds(o), observeBounds(o)}
